@@ -130,7 +130,7 @@ def mutate(rng, t, stats):
     """one structural mutation of a valid torrent; returns (tree, unordered flag)"""
     info = mget(t, "info")
     files = mget(info, "files")
-    kinds = ["wrong_type_info_key", "missing_info_key", "wrong_type_top", "length_edge", "piece_length_edge",
+    kinds = ["wrong_type_info_key", "missing_info_key", "wrong_type_top", "length_edge", "piece_length_edge", "piece_length_wrap",
              "pieces_len", "name_bad", "unordered", "dup_key", "meta_flag", "huge_wrap", "announce_bad"]
     if files is not None:
         kinds += ["path_bad", "path_bad", "path_dup", "path_prefix", "path_prefix_sibling", "path_prefix_sibling", "file_wrong_type", "file_missing", "sum_overflow", "files_shape", "both_length_files"]
@@ -162,6 +162,14 @@ def mutate(rng, t, stats):
         return put_info(mset(info, "length", v)), False
     if kind == "piece_length_edge":
         return put_info(mset(info, "piece length", rng.choice(PIECE_LENGTHS_EDGE))), False
+    if kind == "piece_length_wrap":
+        # a declared piece length that is n modulo 2^32 for an acceptable n, with 'pieces' sized for
+        # the geometry of n: a loader that range-checks a TRUNCATED value accepts it
+        n = rng.choice([1025, 2048, 16384, 1 << 20, PL_MAX])
+        declared = rng.choice([n + 2**32, n + 2 * 2**32, n + 5 * 2**32, n - 2**32, n - 3 * 2**32, n + 2**63 - 2**32 if n + 2**63 - 2**32 <= I64MAX else n + 2**32])
+        _, total, _ = info_total_pl(t)
+        i2 = mset(mset(info, "piece length", declared), "pieces", bytes([rng.randrange(256)]) * (20 * min(ceil_div(max(total, 1), n), 300)))
+        return put_info(i2), False
     if kind == "pieces_len":
         p = mget(info, "pieces")
         if not isinstance(p, bytes):
@@ -348,13 +356,22 @@ def xt_value(rng, stats):
     return urn
 
 
+FOREIGN_TOPICS = [b"urn:btmh:1220" + b"ab" * 32, b"urn:sha1:" + b"A" * 32, b"urn:ed2k:" + b"0" * 32, b"urn:bt", b"urn:btih", b"",
+                  b"urn:tree:tiger:" + b"Z" * 39, b"urn:btmh:%41%", b"URN:BTIH:" + b"A" * 32]
+
+
 def magnet_uri(rng, stats):
     prefix = b"magnet:?" if rng.random() < 0.9 else rng.choice([b"magnet:", b"Magnet:?", b"", b"magnet:?" [:rng.randrange(8)], b"magnet:?&", b"http://x/?"])
     parts = []
     n = rng.choice([1, 1, 2, 2, 3, 4])
     for _ in range(n):
         r = rng.random()
-        if r < 0.55:
+        if r < 0.08:
+            # an xt topic from another namespace (hybrid v2 links carry urn:btmh:): the property
+            # leaves open whether the link is rejected or the topic skipped
+            stats["xt:foreign_topic"] = stats.get("xt:foreign_topic", 0) + 1
+            parts.append(b"xt=" + rng.choice(FOREIGN_TOPICS))
+        elif r < 0.55:
             parts.append(b"xt=" + xt_value(rng, stats))
         elif r < 0.8:
             url = rng.choice([b"http://tracker.example:80/announce", b"udp://t:1", b"", b"x", b"http://a/b?c=d&e"])
@@ -633,6 +650,12 @@ def hand_cases():
     # hostile names of MULTI-file torrents (root directory = <root>/<name>)
     for nm in [b"../escaped", b"..", b".", b"", b"a/b", b"/abs", b"a\x00b", b"../../x", b"x/../../y"]:
         out.append(T(multi([(1, [b"a"]), (2, [b"b", b"c"])], name=nm)))
+    # declared piece length congruent to an acceptable one modulo 2^32 (e.g. 4294983680 = 2^32 + 16384,
+    # -4294934528 = 32768 - 2^32), 'pieces' sized for the truncated geometry
+    for n in (1025, 16384, 32768, PL_MAX):
+        for declared in (n + 2**32, n - 2**32, n + 7 * 2**32, n - 2 * 2**32):
+            out.append(T(single(5000, declared, b"\x11" * (20 * ceil_div(5000, n)))))
+            out.append(T(multi([(3000, [b"a"]), (2000, [b"b"])], pl=declared, pieces=b"\x11" * (20 * ceil_div(5000, n)))))
     # piece-count boundary: ceil = 2^32 but floor = 2^32 - 1
     for pl in (2048, 1025, PL_MAX):
         for total in ((2**32 - 1) * pl + 1, 2**32 * pl - 1, 2**32 * pl - pl + 1, (2**32 - 1) * pl):
@@ -681,6 +704,12 @@ def hand_cases():
               b"magnet:?xt=urn:btih:" + b"B" * 32 + b"&xt=urn:btih:" + b"cd" * 19 + b"c",
               b"magnet:?xt=urn:btih:" + b"B" * 32 + b"&xt=urn:btih:" + b"B" * 20 + b"%2",
               b"magnet:?xt=urn:btih:" + b"B" * 32 + b"&xt=urn:sha1:" + b"B" * 32,
+              # foreign xt topics next to a valid info hash, before / after / alone, with a broken escape
+              b"magnet:?xt=urn:btih:" + b"B" * 32 + b"&xt=urn:btmh:1220" + b"ab" * 32,
+              b"magnet:?xt=urn:btmh:1220" + b"ab" * 32 + b"&xt=urn:btih:" + b"B" * 32,
+              b"magnet:?xt=urn:sha1:" + b"A" * 32, b"magnet:?xt=urn:btmh:1220" + b"ab" * 32,
+              b"magnet:?xt=urn:btih:" + b"B" * 32 + b"&xt=urn:sha1:%4", b"magnet:?xt=urn:btih:" + b"B" * 32 + b"&xt=",
+              b"magnet:?xt=urn:btih:" + b"B" * 32 + b"&xt=urn:btih", b"magnet:?xt=urn:sha1:x&xt=urn:btih:" + b"cd" * 20 + b"&tr=udp://t:1",
               # '%' right after the urn, escapes that decode to hex digits (%61%62.. x20 = 40 hex chars? no: 20 bytes)
               b"magnet:?xt=urn:btih:" + b"%61%62" * 10, b"magnet:?xt=urn:btih:" + b"%61%62" * 20,
               b"magnet:?xt=urn:btih:" + b"ab" * 19 + b"a%62", b"magnet:?xt=urn:btih:" + b"%00" * 19 + b"%01"]:
